@@ -42,6 +42,9 @@ def run(tier, seed, scale):
         Phase("rel-B", "c09", "rel", 60 if q else 180, procs=2 if q else 3, args=["--mode", "B"], timeout=t_wedge),
         Phase("rel-P", "c09", "rel", 12 if q else 24, procs=2 if q else 3, args=["--mode", "P"], timeout=t_wedge),
         Phase("rel-Pstrict", "c09", "rel", 3000 if q else 40000, procs=1 if q else 2, args=["--mode", "P", "--wedgeable", "0"]),
+        # class C: credit-bounded traffic (a producer holding a credit must never be told "full")
+        Phase("rel-C", "c09", "rel", 600 if q else 8000, procs=3 if q else 6, args=["--mode", "C"]),
+        Phase("tsan-C", "c09", "tsan", 60 if q else 600, procs=2 if q else 3, args=["--mode", "C"], timeout=1500),
     ]
     if not q:
         phases += [
@@ -73,6 +76,8 @@ def run(tier, seed, scale):
     chk.require(st.get("wgl_ok_L", 0) >= need, "only %d class-L histories were decided by the linearizability checker (needs %d)" % (st.get("wgl_ok_L", 0), need))
     chk.require(st.get("lin_histories_overlapping", 0) * 4 >= st.get("lin_histories_checked", 1), "fewer than a quarter of the short histories had overlapping operations")
     chk.require(st.get("S_concurrent_ops", 0) >= 20000, "stress histories saw fewer than 20000 overlapping operations")
+    chk.require(st.get("C_try_push_calls_holding_a_credit", 0) >= (2000000 if q else 20000000) * min(1.0, scale) and hn(136) > 1000000 * min(1.0, scale),
+                "class C: only %d try_push calls were made holding a credit (window hook 136 reached %d times)" % (st.get("C_try_push_calls_holding_a_credit", 0), hn(136)))
     chk.require(hn(130) > 10000 and hn(133) > 10000, "ticket hooks (130/133) reached fewer than 10000 times")
     chk.require(hb(132, 1) >= 100, "fewer than 100 pops had to wait for an item that was not written yet (hook 132, arg 1)")
     chk.require(hn(131) >= 1000, "fewer than 1000 page switches under page_mutex observed (hook 131)")
